@@ -23,7 +23,7 @@
 From EoNV Require Import Prelude Samp Graph ListDict ListDictP Gillespie KldP GillespieInv SampP GillespieP GillespieLog.
 From EoNV Require Import Investigation InvestigationP GillespieC10.
 From EoNV Require Import EventSIS EventSISP EventSISRows EventSISLog EventSISFast EventSISNM EventSISOut EventSISInit EventSISEx.
-From EoNV Require Import InitChk InitChkSIS C05sHist C05sTop C05sStatus C05sQuiet.
+From EoNV Require Import InitChk InitChkSIS C05sHist C05sTop C05sStatus C05sQuiet C05sQuietF.
 From Coq Require Import Lqa.
 
 Section C05s.
@@ -132,6 +132,19 @@ Theorem C05s_statuses_at_tmin_are_the_request : forall nodes i0 tmin rows fd,
     Ok (if mem u i0 then stI else stS).
 Proof. exact statuses_at_tmin. Qed.
 
+(* fast_SIS: the tie clause bites only on scripts that contain the draw 0 (a value of measure
+   zero of random.expovariate).  On EVERY script of strictly positive draws nothing but the
+   requested infections is dated tmin, and the full-data object answers exactly the request *)
+Theorem C05s_fast_SIS_positive_draws_exact_start : forall g, (forall u v, In v (gadj g u) -> In v (gnodes g)) ->
+  forall tau gamma tmax tmin i0 fuel ds out tr fd,
+  ic_sis_domb (gnodes g) i0 tmin tmax = true -> Forall (fun d => 0 < d) ds ->
+  exec (fast_SIS g tau gamma tmax (Some i0) None tmin true fuel) ds [] = (Ok out, tr) -> so_full out = Some fd ->
+  quiet_at_tmin (gnodes g) tmin fd = true /\
+  forall u, In u (gnodes g) ->
+    Investigation.node_status (Investigation.mkInv (gnodes g) (fd_hist fd) (Some [(tmin, stS)]) (Some [stS; stI])) u tmin =
+    Ok (if mem u i0 then stI else stS).
+Proof. exact fsis_positive_draws_exact_start. Qed.
+
 (* fast_nonMarkov_SIS: the tie clause bites only for a ZERO duration or delay.  With strictly
    positive rules ([rules_pos]) nothing but the requested infections is dated tmin, the full-data
    object answers exactly the request at tmin *)
@@ -217,6 +230,9 @@ Example C05s_fast_nonMarkov_SIS_example :
   end.
 Proof. split; [exact exS_rules_ok|]. vm_compute. repeat split. Qed.
 
+Example C05s_positive_script : Forall (fun d => 0 < d) script3 /\ length script3 = 20%nat.
+Proof. split; [|reflexivity]. unfold script3. repeat constructor. Qed.
+
 Example C05s_rules_pos_satisfiable : rules_pos durS delS /\ rules_ok durS delS.
 Proof.
   split; [|exact exS_rules_ok]. split.
@@ -286,6 +302,8 @@ Print Assumptions C05s_fast_SIS_every_argument_form.
 Print Assumptions C05s_fast_nonMarkov_SIS_every_argument_form.
 Print Assumptions C05s_ic_sisb_sound.
 Print Assumptions C05s_statuses_at_tmin_are_the_request.
+Print Assumptions C05s_fast_SIS_positive_draws_exact_start.
+Print Assumptions C05s_positive_script.
 Print Assumptions C05s_fast_nonMarkov_SIS_positive_rules_exact_start.
 Print Assumptions C05s_rules_pos_satisfiable.
 Print Assumptions C05s_rho_conflict_rejected.
